@@ -11,6 +11,7 @@ package main
 // Helpers of this file are shared with c15.go and c06.go.
 
 import (
+	"os"
 	"slices"
 	"strconv"
 	"fmt"
@@ -27,6 +28,14 @@ func init() {
 	replayers["C03"] = func(c *ctx, a []string) {
 		if len(a) >= 1 && a[0] == "world" {
 			c03case(c, a[1:])
+		}
+		if len(a) >= 1 && a[0] == "ep" {
+			k, err := c03epParse(a[1:])
+			if err != nil {
+				fmt.Fprintln(os.Stderr, "C03 replay:", err)
+				return
+			}
+			c03epCaseRun(c, k)
 		}
 	}
 }
@@ -515,6 +524,8 @@ func runC03(c *ctx) {
 	for _, l := range c03corpus {
 		c03case(c, strings.Fields(l))
 	}
+	// hand-maintained Endpoints objects of Services without selector (c03ep.go, after seed C03g)
+	runC03ep(c)
 	// exhaustive small scope: two ingresses, one rule each, on a shared host
 	base := []string{
 		"svc+d/app!" + stdPorts + "!-", "ep~d/app!10.0.1.1:r:app-1+10.0.1.2:n:app-2",
